@@ -3,3 +3,32 @@ pub fn main(_args: &[String]) {
     eprintln!("no child mode yet");
     std::process::exit(2);
 }
+
+pub fn bench() {
+    let t = std::time::Instant::now();
+    for _ in 0..50 { let _ = egglog::EGraph::default(); }
+    eprintln!("50x EGraph::default(): {:?}", t.elapsed());
+    let mut eg = egglog::EGraph::default();
+    let t = std::time::Instant::now();
+    crate::engine::run(&mut eg, "(datatype K (K0) (K1))\n(function f (K) i64 :merge (min old new))\n(K0)\n(K1)");
+    for i in 0..50 { crate::engine::run(&mut eg, &format!("(set (f (K0)) {i})")); }
+    eprintln!("50x set: {:?}", t.elapsed());
+    let t = std::time::Instant::now();
+    for _ in 0..50 { crate::engine::run(&mut eg, "(extract (f (K0)))"); }
+    eprintln!("50x extract: {:?}", t.elapsed());
+    let t = std::time::Instant::now();
+    for _ in 0..50 { let _ = eg.clone(); }
+    eprintln!("50x clone: {:?}", t.elapsed());
+    let t = std::time::Instant::now();
+    for _ in 0..50 { let _ = egglog::EGraph::default().with_num_threads(4); }
+    eprintln!("50x EGraph 4 threads: {:?}", t.elapsed());
+}
+
+pub fn bench2() {
+    for threads in [1usize, 4] {
+        let t = std::time::Instant::now();
+        let mut rng = crate::rng::Rng::new(5);
+        for _ in 0..20 { let c = super::c05::gen_case(&mut rng, super::c05::Kind::Min, threads); let _ = super::c05::run_case(&c); }
+        eprintln!("20 cases threads={threads}: {:?}", t.elapsed());
+    }
+}
